@@ -58,16 +58,13 @@ def Series(params: SeriesParams) -> h.Module:
 
     # Create the internal series-connected signals, and concatenate them with the series ports
     # Each of the `nser - 1` internal nodes is as wide as the series ports.
-    iname = "i"
-    while iname in m.namespace:
-        iname += "_"  # Avoid colliding with the unit cell's port names
     width = series_conns[0].width * (params.nser - 1)
-    i = m.add(h.Signal(name=iname, width=width))
+    i = m.add(h.Signal(name=_fresh_name(m, "i"), width=width))
     unit_conns[series_conns[0].name] = h.Concat(series_conns[0], i)
     unit_conns[series_conns[1].name] = h.Concat(i, series_conns[1])
 
     # Create an array of unit instances
-    m.add(params.nser * params.unit(**unit_conns), name="units")
+    m.add(params.nser * params.unit(**unit_conns), name=_fresh_name(m, "units"))
 
     # And return the module
     return m
@@ -136,10 +133,18 @@ def Wrapper(m: h.Instantiable) -> h.Module:
     wrapper_io = {p.name: wrapper.add(_copy_port(p)) for p in io(m).values()}
 
     # Create the inner instance
-    wrapper.add(h.Instance(name="inner", of=m)(**wrapper_io))
+    wrapper.add(h.Instance(name=_fresh_name(wrapper, "inner"), of=m)(**wrapper_io))
 
     # And return the wrapper
     return wrapper
+
+
+def _fresh_name(m: h.Module, name: str) -> str:
+    """A name for a new attribute of `m`: `name`, unless that is taken (e.g. by a port copied from the unit cell),
+    in which case underscores are appended until it is not."""
+    while name in m.namespace:
+        name += "_"
+    return name
 
 
 def _copy_port(p: Union[h.Signal, h.BundleInstance]) -> Union[h.Signal, h.BundleInstance]:
